@@ -166,7 +166,7 @@ func runC15(c *core.Ctx) {
 	}
 	var finalisers []*ssa.Function
 	for i := 0; i < rw.NumMethods(); i++ {
-		fn := p.SSA.FuncValue(rw.Method(i))
+		fn := p.FuncOf(rw.Method(i))
 		if fn == nil {
 			continue
 		}
@@ -247,7 +247,7 @@ func runC15(c *core.Ctx) {
 		c.Instance("R2")
 		var creators []string
 		for i := 0; i < rw.NumMethods(); i++ {
-			fn := p.SSA.FuncValue(rw.Method(i))
+			fn := p.FuncOf(rw.Method(i))
 			if fn == nil {
 				continue
 			}
